@@ -57,6 +57,7 @@ DoSort == StepOf("sort")          DoTake == StepOf("take")
 DoAggregate == StepOf("aggregate") DoGroup == StepOf("group")
 DoWindow == StepOf("window")      DoJoin == StepOf("join")
 DoAppend == StepOf("append")
+DoRemove == StepOf("remove")      DoIntersect == StepOf("intersect")
 DoExclude == StepOf("exclude")
 DoFromLit == StepOf("fromlit")
 DoLoop == StepOf("loop")
@@ -103,7 +104,7 @@ Failure ==
 
 TNext == \/ Database \/ Reset \/ DeclLet \/ DeclFunc
          \/ DoFrom \/ DoSelect \/ DoDerive \/ DoFilter \/ DoSort \/ DoTake
-         \/ DoAggregate \/ DoGroup \/ DoWindow \/ DoJoin \/ DoAppend \/ DoExclude \/ DoFromLit \/ DoLoop \/ DoBad
+         \/ DoAggregate \/ DoGroup \/ DoWindow \/ DoJoin \/ DoAppend \/ DoRemove \/ DoIntersect \/ DoExclude \/ DoFromLit \/ DoLoop \/ DoBad
          \/ Observe \/ CompileError \/ Failure
 
 TraceSpec == TInit /\ [][TNext]_vars
